@@ -139,6 +139,8 @@ pub struct World {
     /// after a lenient script step the dataset is no longer compared (the scripting path is a
     /// second implementation); checks that restrict scripts to a safe subset turn this off
     pub script_uncertain: bool,
+    /// origin of the harness clock for this case
+    pub t0: Option<std::time::Instant>,
     pub slot_excluder: Option<std::sync::Arc<dyn Fn(&mut World, usize, &Cmd) -> bool + Send + Sync>>,
 }
 
@@ -372,7 +374,31 @@ impl World {
             uncertain: false,
             slot_excluder: None,
             script_uncertain: true,
+            t0: None,
         }
+    }
+
+    /// Harness clock, milliseconds since the start of the case.
+    pub fn clock_ms(&self) -> f64 {
+        self.t0.map_or(0.0, |t| t.elapsed().as_secs_f64() * 1000.0)
+    }
+
+    /// Keys whose deadline lies inside the current window `self.now` (timed mode only).
+    pub fn undecided_keys(&self, dbs: &[usize]) -> Vec<(usize, Bytes)> {
+        let mut out = Vec::new();
+        if !self.timed {
+            return out;
+        }
+        for &db in dbs {
+            for (k, e) in &self.dbs[db].keys {
+                if let Some(d) = e.ttl {
+                    if d.hi > self.now.send && d.lo <= self.now.recv {
+                        out.push((db, k.clone()));
+                    }
+                }
+            }
+        }
+        out
     }
 
     pub fn label(&mut self, l: &'static str) {
@@ -442,6 +468,9 @@ impl World {
     }
 
     pub fn put(&mut self, db: usize, key: &[u8], val: Val, ttl: Option<Deadline>) {
+        if ttl.is_none() && self.dbs[db].keys.get(key).map_or(false, |e| e.ttl.is_some()) {
+            self.labels.insert("ttl-overwritten");
+        }
         self.dbs[db].keys.insert(key.to_vec(), Entry { val, ttl });
         self.mutated();
     }
